@@ -517,29 +517,58 @@ func ruleCloseOrder(p *Prog, r *RuleResult) {
 	var finalStores []ssa.Instruction
 	var pbCall, obsClose, sinkClose *ssa.Call
 	var markers []ssa.Instruction
-	eachInstr(wc, func(i ssa.Instruction) {
-		c, ok := i.(*ssa.Call)
-		if !ok {
-			return
-		}
-		if callee := c.Call.StaticCallee(); callee != nil && callee == p.MethodOpt("io", "Writer", "processBlock") {
-			pbCall = c
-		}
-		if c.Call.IsInvoke() {
-			recv := namedOf(c.Call.Value.Type())
-			if recv == nil || recv.Obj().Pkg() == nil {
+	pbFn := p.MethodOpt("io", "Writer", "processBlock")
+	// the finishing part (last batch, end marker, finalized=1) may live in a helper of Close: fin is the function that
+	// calls processBlock, finCall the call of that helper in Close
+	fin := wc
+	var finCall *ssa.Call
+	hasPB := func(f *ssa.Function) bool {
+		found := false
+		eachInstr(f, func(i ssa.Instruction) {
+			if c, ok := i.(*ssa.Call); ok && c.Call.StaticCallee() != nil && c.Call.StaticCallee() == pbFn {
+				found = true
+			}
+		})
+		return found
+	}
+	if !hasPB(wc) {
+		eachInstr(wc, func(i ssa.Instruction) {
+			if h := helperCallee(i, FnPkg(wc)); h != nil && h != pbFn && hasPB(h) {
+				if c, ok := i.(*ssa.Call); ok {
+					fin, finCall = h, c
+				}
+			}
+		})
+	}
+	scanCalls := func(f *ssa.Function) {
+		eachInstr(f, func(i ssa.Instruction) {
+			c, ok := i.(*ssa.Call)
+			if !ok {
 				return
 			}
-			switch {
-			case recv.Obj().Pkg().Path() == p.ModPath && c.Call.Method.Name() == "Close":
-				obsClose = c
-			case recv.Obj().Pkg().Path() == "io" && c.Call.Method.Name() == "Close":
-				sinkClose = c
-			case recv.Obj().Pkg().Path() == p.ModPath && c.Call.Method.Name() == "WriteBits":
-				markers = append(markers, c)
+			if callee := c.Call.StaticCallee(); callee != nil && callee == pbFn && f == fin {
+				pbCall = c
 			}
-		}
-	})
+			if c.Call.IsInvoke() {
+				recv := namedOf(c.Call.Value.Type())
+				if recv == nil || recv.Obj().Pkg() == nil {
+					return
+				}
+				switch {
+				case recv.Obj().Pkg().Path() == p.ModPath && c.Call.Method.Name() == "Close" && f == wc:
+					obsClose = c
+				case recv.Obj().Pkg().Path() == "io" && c.Call.Method.Name() == "Close" && f == wc:
+					sinkClose = c
+				case recv.Obj().Pkg().Path() == p.ModPath && c.Call.Method.Name() == "WriteBits" && f == fin:
+					markers = append(markers, c)
+				}
+			}
+		})
+	}
+	scanCalls(wc)
+	if fin != wc {
+		scanCalls(fin)
+	}
 	// the end-marker writes may live in a helper of Close (but not in the processBlock/writeHeader chain)
 	isZeroWrite := func(i ssa.Instruction) bool {
 		c := callOf(i)
@@ -550,9 +579,9 @@ func ruleCloseOrder(p *Prog, r *RuleResult) {
 		return recv != nil && recv.Obj().Pkg() != nil && recv.Obj().Pkg().Path() == p.ModPath && isZeroConst(c.Args[0])
 	}
 	memo := map[*ssa.Function]int{}
-	eachInstr(wc, func(i ssa.Instruction) {
+	eachInstr(fin, func(i ssa.Instruction) {
 		h := helperCallee(i, FnPkg(wc))
-		if h == nil || (pbCall != nil && i == ssa.Instruction(pbCall)) || h == p.MethodOpt("io", "Writer", "processBlock") || h == p.MethodOpt("io", "Writer", "writeHeader") {
+		if h == nil || (pbCall != nil && i == ssa.Instruction(pbCall)) || h == pbFn || h == p.MethodOpt("io", "Writer", "writeHeader") {
 			return
 		}
 		if p.containsDeep(h, isZeroWrite, memo) {
@@ -579,7 +608,7 @@ func ruleCloseOrder(p *Prog, r *RuleResult) {
 		memo2 := map[*ssa.Function]int{}
 		eachInstr(wc, func(i ssa.Instruction) {
 			h := helperCallee(i, FnPkg(wc))
-			if h == nil || h == p.MethodOpt("io", "Writer", "processBlock") || h == p.MethodOpt("io", "Writer", "writeHeader") {
+			if h == nil || h == p.MethodOpt("io", "Writer", "processBlock") || h == p.MethodOpt("io", "Writer", "writeHeader") || h == fin {
 				return
 			}
 			if _, isDefer := i.(*ssa.Defer); isDefer {
@@ -601,7 +630,7 @@ func ruleCloseOrder(p *Prog, r *RuleResult) {
 		undecided("%s: cannot find processBlock call / bitstream Close / closed store", wname)
 	}
 	// finalized: an atomic store of 1 (not a CAS) to another field, made after the end marker was written
-	eachInstr(wc, func(i ssa.Instruction) {
+	eachInstr(fin, func(i ssa.Instruction) {
 		c := callOf(i)
 		if c == nil || !isAtomic(c, "StoreInt32", "SwapInt32") || len(c.Args) != 2 {
 			return
@@ -616,8 +645,44 @@ func ruleCloseOrder(p *Prog, r *RuleResult) {
 			}
 		}
 	})
+	if finalF == nil && pbCall != nil {
+		// by role: the flag whose being 0 lets Close run the last batch (a load compared with 0 on an edge that dominates
+		// the processBlock call); it must not be the closed flag
+		for _, b := range fin.Blocks {
+			ifi := blockIf(b)
+			if ifi == nil {
+				continue
+			}
+			atom, pos := condAtom(ifi.Cond)
+			bo, ok := atom.(*ssa.BinOp)
+			if !ok || (bo.Op != token.EQL && bo.Op != token.NEQ) || !isZeroConst(bo.Y) {
+				continue
+			}
+			c, ok := bo.X.(*ssa.Call)
+			if !ok || !isAtomic(&c.Call, "LoadInt32") || len(c.Call.Args) != 1 {
+				continue
+			}
+			fv := fieldVarOfAddr(c.Call.Args[0])
+			if fv == nil || fv == closedF {
+				continue
+			}
+			if edgeDominates(fin, edge{b, succFor(pos, bo.Op == token.EQL)}, pbCall.Block()) {
+				finalF = fv
+			}
+		}
+	}
 	if finalF != nil {
-		finalStores = atomicStoreTo(wc, finalF)
+		finalStores = atomicStoreTo(fin, finalF)
+		// finalized=1 says "the end marker is in the stream": it may only be set once every marker write has been made,
+		// otherwise a Close that failed inside the marker is retried as if the marker were complete
+		for k, st := range finalStores {
+			for _, m := range markers {
+				if !instrDominates(m, st) {
+					r.fail(fmt.Sprintf("%s#finalized-before-marker#%d", wname, k+1), p.IPos(st), "the stream is marked finalized before the end marker has been written completely: if the marker's write fails, a retried Close skips the marker and reports success for a stream without a complete end marker")
+					break
+				}
+			}
+		}
 	}
 	n := 0
 	mustFollowOK := func(call *ssa.Call, callName string, targets []ssa.Instruction, tname string, mustDominate bool) {
@@ -642,6 +707,10 @@ func ruleCloseOrder(p *Prog, r *RuleResult) {
 	}
 	mustFollowOK(pbCall, "processBlock", markers, "end-marker write", true)
 	mustFollowOK(pbCall, "processBlock", finalStores, "finalized=1", true)
+	if finCall != nil {
+		// Close goes on to close the bitstream only when the finishing helper succeeded
+		mustFollowOK(finCall, fin.Name(), []ssa.Instruction{obsClose}, "bitstream.Close", true)
+	}
 	mustFollowOK(obsClose, "bitstream.Close", closedStores, "closed=1", true)
 	if sinkClose != nil {
 		mustFollowOK(sinkClose, "sink.Close", closedStores, "closed=1", false)
